@@ -260,3 +260,21 @@ Example C16_ex_conversation :
                                       ++ encode_nl (frame_of_msg (QueryState 3));
                              w_sched := [] |} |}).
 Proof. split; [repeat constructor|vm_compute; reflexivity]. Qed.
+
+(* ---------- earlier output is only ever appended to ---------- *)
+Check eq_refl : out_prefixed = fun (out : list N) (p : port) =>
+  {| pt_in := pt_in p;
+     pt_out := {| w_out := out ++ w_out (pt_out p); w_sched := w_sched (pt_out p) |} |}.
+
+(* An exchange on a port that already carries the output [out] is the exchange on the port without it, with [out] put back
+   in front: nothing written earlier is read, changed or dropped.  (The correspondence uses this to evaluate conversations
+   of tens of thousands of exchanges one at a time, taking the output away after each.) *)
+Theorem C16_output_only_appended :
+  forall out m p,
+  serial_process m (out_prefixed out p)
+  = match serial_process m p with
+    | None => None
+    | Some (res, p', evs) => Some (res, out_prefixed out p', evs)
+    end.
+Proof. exact SerialP.serial_process_prefixed. Qed.
+Print Assumptions C16_output_only_appended.
